@@ -29,6 +29,7 @@ RULE += (' Also: what __(a)enter__ gives is falsy and awaitable (handed on untou
 RULE += (" Also: histories with raising exits (an unwind ending in an exit's failure, then the same stack used again).")
 RULE += (' Also: exits failing with a falsy exception instance.')
 RULE += (' Also: a manager whose enter calls pop_all() on the stack it is being entered on; the same exit / manager registered twice.')
+RULE += (' Also: plain callables returning the awaitable of an asynchronous exit, pushed.')
 ASSUMPTIONS = ["nested async with/with statements of the running interpreter are the reference for routing",
                "__context__ chains are not compared"]
 EXHAUSTIVE_SUBSPACES = 'all 16842 stacks of <= 3 entries x block outcome; all histories of length <= 4 (thorough: 5) over 8 operations'
@@ -36,7 +37,10 @@ EXHAUSTIVE = {"quick": False, "thorough": False}  # enumerated sub-spaces are co
 
 KINDS = ["acm", "scm", "apush", "spush", "cb"]
 # sampled in addition: objects implementing BOTH context manager protocols (entered / only pushed)
-KINDS_EXTRA = KINDS + ["dualcm", "dualpush", "scmpush", "acmpush"]  # ...push: a manager object pushed, never entered
+KINDS_EXTRA = KINDS + ["dualcm", "dualpush", "scmpush", "acmpush",
+                       # a plain (not ``async def``) callable handing back the awaitable of an asynchronous exit: a
+                       # wrapped handler, a lambda delegating to one
+                       "wpush", "wpush"]  # ...push: a manager object pushed, never entered
 BEHS = ["falsy", "truthy", "raise", "raise_if_exc"]
 # sampled in addition to the enumerated behaviours: exits that raise a BaseException which is not an Exception
 BEHS_EXTRA = BEHS + ["raise_base", "raise_base_if_exc", "reraise_same", "reraise_same",
@@ -268,6 +272,13 @@ def mk_entry(kind, beh, i, log, susp, choice, shared=None):
             return exit_logic(et, ev, tb)
 
         return aexit
+    if kind == "wpush":
+        async def aexit2(et, ev, tb):
+            if susp:
+                await Suspend(("exit", i), susp)
+            return exit_logic(et, ev, tb)
+
+        return lambda et, ev, tb: aexit2(et, ev, tb)
     if kind == "spush":
         return exit_logic
     if kind == "cb":
@@ -335,7 +346,7 @@ def run_stack(case, stats):
 
             async with W():
                 await nest(i + 1)
-        elif k == "apush":
+        elif k in ("apush", "wpush"):
             class W:
                 async def __aenter__(self):
                     pass
@@ -389,7 +400,7 @@ def run_stack(case, stats):
                 if k in ("acm", "scm", "dualcm"):
                     v = await s.enter_context(e)
                     l2.append(("value", v))
-                elif k in ("apush", "spush", "dualpush", "scmpush", "acmpush"):
+                elif k in ("apush", "wpush", "spush", "dualpush", "scmpush", "acmpush"):
                     if s.push(e) is not e:
                         misc.append("push did not return its argument")
                 else:
